@@ -31,11 +31,39 @@ def cases(tier):
     out = [("xor", r) for r in range(60 if tier == "quick" else 2500)]
     out += [("bell", r) for r in range(24 if tier == "quick" else 400)]
     out += [("reject", r) for r in range(20 if tier == "quick" else 300)]
+    out += [("classical", r) for r in range(200 if tier == "quick" else 20000)]
     return out
 
 
 def run(ctx, spec, rng):
     globals()["_run_" + spec[0]](ctx, spec, rng)
+
+
+def _run_classical(ctx, spec, rng):
+    """The classical value alone (no solver: many cheap instances), XOR game and converted game against the +/-1 brute force; every third
+    instance has repeated predicate columns."""
+    from toqito.nonlocal_games.xor_game import XORGame
+
+    r = 4 * (1 + spec[1] % 3) + spec[1] % 4 + 12 * (spec[1] // 12)  # walk through (r // 4) % 3 and r % 4 of xor_instance evenly
+    prob, pred, kind = xor_instance(rng, r)
+    x, y = prob.shape
+    game = ctx.call(XORGame, prob.copy(), pred.copy())
+    if game is FAILED:
+        return
+    d_mat = prob * (-1.0) ** pred
+    best = max(float(np.abs(np.array([1 - 2 * ((a_ >> i_) & 1) for i_ in range(x)]) @ d_mat).sum()) for a_ in range(2 ** x))
+    want = 0.5 + 0.5 * best
+    cl = ctx.call(game.classical_value)
+    dup = len({tuple(c_) for c_ in pred.T}) < y
+    if cl is not FAILED:
+        ctx.check("O3:classical=bruteforce", None, dev=abs(float(cl) - want), tol=1e-9, sig=("classical-only", x, y, kind, dup), nt=True, mech="xor:classical-mismatch",
+                  detail={"prob": prob, "pred": pred, "library": cl, "bruteforce": want, "repeated_predicate_columns": dup})
+    conv = ctx.call(game.to_nonlocal_game)
+    if conv is not FAILED:
+        cl2 = ctx.call(conv.classical_value)
+        if cl2 is not FAILED:
+            ctx.check("O3:xor=converted", abs(float(cl2) - want) <= 1e-9, dev=abs(float(cl2) - want), tol=1e-9, sig=("classical-only", x, y, dup), nt=True,
+                      mech="xor:converted-classical-differs-from-bruteforce", detail={"library": cl2, "bruteforce": want})
 
 
 def _solve(ctx, fn, *a, **k):
@@ -67,6 +95,20 @@ def xor_instance(rng, r):
                 prob[0, 0] = 1.0
         prob /= prob.sum()
     pred = rng.integers(0, 2, size=(x, y))
+    if (r // 4) % 3 == 1 and y >= 3:
+        # several of Bob's questions share one predicate column (and, transposed, Alice's rows) while their probabilities are unrelated
+        pool = rng.integers(0, 2, size=(x, 2))
+        pred = pool[:, rng.integers(0, 2, size=y)]
+        if r % 2:
+            pred = pred.copy()
+            pred[int(rng.integers(0, x)), int(rng.integers(0, y))] ^= 1
+        if x >= 2 and kind != 0:
+            # ... strongly non-proportional: each column puts most of its weight on its own row
+            skew = np.ones((x, y))
+            for j_ in range(y):
+                skew[j_ % x, j_] = 6.0
+            prob = prob * skew
+            prob /= prob.sum()
     return prob, pred, kind
 
 
